@@ -298,7 +298,8 @@ class ctx:
         Check if current asyncio task is cancelled, raises CancelledError if so.
         """
 
-        if (task := current_task()) and task.cancelled():
+        # the running task is never `cancelled()` yet - check for a pending cancel request
+        if (task := current_task()) and task.cancelling() > 0:
             raise CancelledError()
 
     @staticmethod
